@@ -53,10 +53,42 @@ class Poly:
     """sparse polynomial: dict exponent-tuple -> Fraction (no zero coefficients)"""
     __slots__ = ('t', 'nv')
     __array_priority__ = 1000
+    # Q(sqrt r): when set to (variable index, r) that variable stands for sqrt(r): powers are reduced with s^2 = r on
+    # construction and division by a polynomial in s alone is carried out in the field (only for ElementTriBDM1)
+    SQRT = None
 
     def __init__(self, t, nv):
+        if Poly.SQRT is not None and Poly.SQRT[0] < nv:
+            idx, r = Poly.SQRT
+            red = {}
+            for k, v in t.items():
+                if k[idx] >= 2:
+                    v = v * Fr(r) ** (k[idx] // 2)
+                    k = k[:idx] + (k[idx] % 2,) + k[idx + 1:]
+                red[k] = red.get(k, 0) + v
+            t = red
         self.t = {k: v for k, v in t.items() if v != 0}
         self.nv = nv
+
+    def _field_inverse(self):
+        """1 / (a + b s) in Q(sqrt r), for a polynomial in the variable s alone"""
+        if Poly.SQRT is None:
+            raise SymbolicError('division by a non-constant polynomial')
+        idx, r = Poly.SQRT
+        a = b = Fr(0)
+        for k, v in self.t.items():
+            if any(e for j, e in enumerate(k) if j != idx) or k[idx] > 1:
+                raise SymbolicError('division by a polynomial in the coordinates')
+            if k[idx] == 0:
+                a = v
+            else:
+                b = v
+        den = a * a - r * b * b
+        if den == 0:
+            raise SymbolicError('division by zero')
+        e0 = (0,) * self.nv
+        e1 = tuple(1 if j == idx else 0 for j in range(self.nv))
+        return Poly({e0: a / den, e1: -b / den}, self.nv)
 
     # constructors
     @staticmethod
@@ -145,7 +177,7 @@ class Poly:
             return NotImplemented
         if isinstance(o, Poly):
             if not o.is_const():
-                raise SymbolicError('division by a non-constant polynomial')
+                return self * o._field_inverse()
             o = o.const_value()
         o = rat(o)
         if o == 0:
@@ -153,7 +185,9 @@ class Poly:
         return self * (1 / o)
 
     def __rtruediv__(self, o):
-        if not self.is_const() or self.const_value() == 0:
+        if not self.is_const():
+            return self._field_inverse() * o
+        if self.const_value() == 0:
             raise SymbolicError('division by a non-constant polynomial')
         return Poly.const(rat(o) / self.const_value(), self.nv)
 
